@@ -101,6 +101,20 @@ func monC11(rep Rep, v *View) (flagged bool) {
 		break
 	}
 	if !v.Deleting {
+		// the cached set carried no deletion timestamp, but the reconcile looked the live object up (the re-check that
+		// precedes an adoption) and was handed one that does: from then on it knows, and pods and claims are off limits
+		knows := -1
+		for i, a := range v.Rec.Actions {
+			if a.Verb == "get" && a.Resource == "statefulsets" && a.Subresource == "" && a.Err == nil && knows < 0 {
+				if live, ok := a.Result.(*asv1.StatefulSet); ok && live != nil && live.UID == v.Set.UID && live.DeletionTimestamp != nil {
+					knows = i
+					flagged = true
+				}
+			}
+			if knows >= 0 && i > knows && a.IsWrite() && (a.Resource == "pods" || a.Resource == "persistentvolumeclaims") {
+				rep.Violate("deleting/write-after-reading-deleting-set", "the reconcile read the live set (call %d) and got a deletion timestamp, and then still issued %s%s", knows, a, ctx(v))
+			}
+		}
 		return flagged
 	}
 	for _, a := range v.Rec.Actions {
